@@ -45,22 +45,9 @@ Theorem C10_only_denoted_partial :
 Proof. exact no_junk. Qed.
 Print Assumptions C10_only_denoted_partial.
 
-(** Counts ('# N instances.'): for a document without repeated statements the
-    dictionary records key [S] for node [n] exactly as many times as the
-    specification's answer list holds [n] ... *)
-Theorem C10_multiplicity_partial :
-  forall tg cs fmt orc G,
-    C10_dom tg orc G = true -> nodup_graph G = true ->
-    exists d, run orc (to_tspec tg cs fmt) G = OOk d /\
-              forall S n, wf_key S = true -> wf_node n = true ->
-                          count_str (key_of S) (labels_of d (node_key n)) =
-                          count_obj (ON n) (denote_list tg (o_ans orc) G S).
-Proof. exact multiplicity. Qed.
-Print Assumptions C10_multiplicity_partial.
-
-(** ... hence once per node where no node is answered twice for one label
-    ([C10_dom_count]): the number of instances counted for a shape is the number
-    of distinct nodes it denotes. *)
+(** Counts ('# N instances.'): for a document without repeated statements
+    ([C10_dom_count]) every node carries a key at most once, so the number of
+    instances counted for a shape is the number of distinct nodes it denotes ... *)
 Theorem C10_each_once_partial :
   forall tg cs fmt orc G,
     C10_dom_count tg orc G = true ->
@@ -69,6 +56,17 @@ Theorem C10_each_once_partial :
                           (count_str (key_of S) (labels_of d (node_key n)) <= 1)%nat.
 Proof. exact each_once. Qed.
 Print Assumptions C10_each_once_partial.
+
+(** ... and a label of the shape map is never repeated, whatever the document
+    and however often a selector answers the node (wildcard patterns,
+    overlapping items). *)
+Theorem C10_labels_once :
+  forall tg cs fmt orc G,
+    C10_dom tg orc G = true ->
+    exists d, run orc (to_tspec tg cs fmt) G = OOk d /\
+              forall l k, (count_str (Str "<" ++ l ++ Str ">") (labels_of d k) <= 1)%nat.
+Proof. exact labels_once. Qed.
+Print Assumptions C10_labels_once.
 
 (** On the domain no literal is denoted (so the statement above, which speaks
     of nodes, covers every denoted term). *)
@@ -120,29 +118,36 @@ Definition n1 := iri_node (Str "http://e/n1").
 Definition b0 := Node KBnode (Str "_:b0").
 Definition C0 := ON (iri_node (Str "http://e/C0")).
 Definition xsd_string := Str "http://www.w3.org/2001/XMLSchema#string".
+Definition u_at := iri_node (Str "http://e/u@h").
 Definition ex_graph : graph :=
   [T n0 c_RDF_TYPE C0; T n1 (Str "http://e/kind") C0; T b0 (Str "http://e/kind") C0;
-   T n0 (Str "http://e/p0") (ON n1); T n1 (Str "http://e/p0") (OL (Str "v") xsd_string)].
+   T n0 (Str "http://e/p0") (ON n1); T n0 (Str "http://e/p0") (ON n0);
+   T n1 (Str "http://e/p0") (OL (Str "v") xsd_string)].
+(** a wildcard pattern answering n0 twice, a prefixed label, two items with one
+    label, an IRI with '@', a SPARQL selector -- and all_classes_mode *)
 Definition ex_target : target :=
   {| t_ns := ex_ns; t_tau := Pref (Str "ex") (Str "kind"); t_classes := None; t_all := true;
      t_items := Some [ {| it_sel := SelFocusSubj (FIri (Pref (Str "ex") (Str "p0"))) FWild;
                           it_label := Angle (Str "http://sh/S0") |};
-                       {| it_sel := SelNode (Angle (Str "http://e/n0")); it_label := Angle (Str "http://sh/S1") |};
+                       {| it_sel := SelNode (Angle (Str "http://e/n0")); it_label := Pref (Str "sh") (Str "S1") |};
                        {| it_sel := SelFocusObj (FIri (Angle (Str "http://e/n0"))) (FIri (Pref (Str "ex") (Str "p0")));
                           it_label := Angle (Str "http://sh/S1") |};
                        {| it_sel := SelSparql (Str "select ?x where { ?x ex:kind ex:C0 }");
-                          it_label := Angle (Str "http://sh/S2") |} ] |}.
+                          it_label := Angle (Str "http://sh/S2") |};
+                       {| it_sel := SelNode (Angle (Str "http://e/u@h")); it_label := Pref (Str "sh") (Str "S3") |} ] |}.
 
 Example C10_dom_inhabited :
-  C10_dom ex_target ex_orc ex_graph = true /\
+  C10_dom_count ex_target ex_orc ex_graph = true /\
   run ex_orc (to_tspec ex_target ClsList FmtFixed) ex_graph =
   OOk [(Str "http://e/n0", [Str "<http://sh/S0>"; Str "<http://sh/S1>"]);
        (Str "http://e/n1", [Str "<http://sh/S0>"; Str "<http://sh/S1>"; Str "<http://sh/S2>"; Str "http://e/C0"]);
+       (Str "http://e/u@h", [Str "<http://sh/S3>"]);
        (Str "_:b0", [Str "http://e/C0"])] /\
   sp_smap (to_tspec ex_target ClsList FmtFixed) =
-  SMFixed (Str "{FOCUS ex:p0 _}@<http://sh/S0>," ++ nl ++ Str "<http://e/n0>@<http://sh/S1>," ++ nl ++
+  SMFixed (Str "{FOCUS ex:p0 _}@<http://sh/S0>," ++ nl ++ Str "<http://e/n0>@sh:S1," ++ nl ++
            Str "{<http://e/n0> ex:p0 FOCUS}@<http://sh/S1>," ++ nl ++
-           Str "SPARQL 'select ?x where { ?x ex:kind ex:C0 }'@<http://sh/S2>").
+           Str "SPARQL 'select ?x where { ?x ex:kind ex:C0 }'@<http://sh/S2>," ++ nl ++
+           Str "<http://e/u@h>@sh:S3").
 Proof. vm_compute. repeat split; reflexivity. Qed.
 
 Definition cls_target : target :=
@@ -172,45 +177,49 @@ Proof.
   eapply (refute_by_missing _ _ _ _ _ _ (KLabel (Str "http://sh/S0")) b0); vm_compute; reflexivity.
 Qed.
 
-(** C10-F2: a prefixed label is stored under '%http://sh/S0' *)
-Lemma C10_prefixed_label_refuted :
-  exists tg cs fmt orc G, rc_prefixed_label tg = true /\ ~ C10_statement tg cs fmt orc G.
-Proof.
-  exists (one_item (SelNode (Angle (Str "http://e/n0"))) (Pref (Str "sh") (Str "S0")) false),
-         ClsList, FmtJson, ex_orc, [T n0 c_RDF_TYPE C0].
-  split; [vm_compute; reflexivity|].
-  eapply (refute_by_missing _ _ _ _ _ _ (KLabel (Str "http://sh/S0")) n0); vm_compute; reflexivity.
-Qed.
-
-(** ... and printed in the shapes namespace *)
-Lemma C10_prefixed_label_rebased :
-  shape_name dflt_shapes_namespace (Str "%http://sh/S0") = Str "%<http://weso.es/shapes/S0>" /\
-  shape_name dflt_shapes_namespace (Str "<http://sh/S0>") = Str "%<http://sh/S0>".
+(** formerly C10-F2, F3, F4 (fixed; now inside the domain -- regression examples) *)
+Example C10_prefixed_label_fixed :
+  let tg := one_item (SelNode (Angle (Str "http://e/n0"))) (Pref (Str "sh") (Str "S0")) false in
+  C10_dom_count tg ex_orc [T n0 c_RDF_TYPE C0] = true /\
+  run ex_orc (to_tspec tg ClsList FmtJson) [T n0 c_RDF_TYPE C0] = OOk [(Str "http://e/n0", [Str "<http://sh/S0>"])].
 Proof. vm_compute. split; reflexivity. Qed.
 
-(** C10-F3: fixed syntax, '@' inside an IRI: the constructor raises ValueError *)
-Lemma C10_at_in_iri_refuted :
-  exists tg cs orc G, rc_at_in_item tg FmtFixed = true /\
+Example C10_at_in_iri_fixed :
+  let tg := one_item (SelNode (Angle (Str "http://e/u@h"))) (Angle (Str "http://sh/S0")) false in
+  C10_dom_count tg ex_orc [T u_at c_RDF_TYPE C0] = true /\
+  run ex_orc (to_tspec tg ClsList FmtFixed) [T u_at c_RDF_TYPE C0] = OOk [(Str "http://e/u@h", [Str "<http://sh/S0>"])].
+Proof. vm_compute. split; reflexivity. Qed.
+
+Example C10_repeated_answer_fixed :
+  let tg := one_item (SelFocusSubj (FIri (Pref (Str "ex") (Str "p0"))) FWild) (Angle (Str "http://sh/S0")) false in
+  let G := [T n0 (Str "http://e/p0") (OL (Str "v") xsd_string); T n0 (Str "http://e/p0") (OL (Str "w") xsd_string)] in
+  C10_dom_count tg ex_orc G = true /\
+  run ex_orc (to_tspec tg ClsList FmtFixed) G = OOk [(Str "http://e/n0", [Str "<http://sh/S0>"])].
+Proof. vm_compute. split; reflexivity. Qed.
+
+(** C10-F7 (what is left of F4): inside C10_dom a repeated statement makes a
+    class tracker record the class twice *)
+Lemma C10_repeated_statement_refuted :
+  exists tg cs fmt orc G d,
+    C10_dom tg orc G = true /\ rc_repeated_statement G = true /\
+    run orc (to_tspec tg cs fmt) G = OOk d /\
+    count_str (Str "http://e/C0") (labels_of d (Str "http://e/n0")) = 2%nat.
+Proof.
+  exists {| t_ns := ex_ns; t_tau := Full c_RDF_TYPE; t_classes := None; t_all := true; t_items := None |},
+         ClsList, FmtFixed, ex_orc, [T n0 c_RDF_TYPE C0; T n0 c_RDF_TYPE C0].
+  eexists. vm_compute. repeat split; reflexivity.
+Qed.
+
+(** C10-F8 (what is left of F3): fixed syntax, '@' inside a label: the constructor raises ValueError *)
+Lemma C10_at_in_label_refuted :
+  exists tg cs orc G, rc_at_in_label tg FmtFixed = true /\
                       run orc (to_tspec tg cs FmtFixed) G = OCtorErr ExValue /\
                       ~ C10_statement tg cs FmtFixed orc G.
 Proof.
-  exists (one_item (SelNode (Angle (Str "http://e/u@h"))) (Angle (Str "http://sh/S0")) false),
-         ClsList, ex_orc, [T (iri_node (Str "http://e/u@h")) c_RDF_TYPE C0].
+  exists (one_item (SelNode (Angle (Str "http://e/n0"))) (Angle (Str "http://sh/a@b")) false),
+         ClsList, ex_orc, [T n0 c_RDF_TYPE C0].
   split; [vm_compute; reflexivity|]. split; [vm_compute; reflexivity|].
   apply refute_by_fault. intros d. vm_compute. discriminate.
-Qed.
-
-(** C10-F4: inside C10_dom a node may carry one key twice (one per matching triple) *)
-Lemma C10_repeated_answer_refuted :
-  exists tg cs fmt orc G d,
-    C10_dom tg orc G = true /\ rc_repeated_answer tg orc G = true /\
-    run orc (to_tspec tg cs fmt) G = OOk d /\
-    count_str (Str "<http://sh/S0>") (labels_of d (Str "http://e/n0")) = 2%nat.
-Proof.
-  exists (one_item (SelFocusSubj (FIri (Pref (Str "ex") (Str "p0"))) FWild) (Angle (Str "http://sh/S0")) false),
-         ClsList, FmtFixed, ex_orc,
-         [T n0 (Str "http://e/p0") (OL (Str "v") xsd_string); T n0 (Str "http://e/p0") (OL (Str "w") xsd_string)].
-  eexists. vm_compute. repeat split; reflexivity.
 Qed.
 
 (** C10-F5: two keys of one specification get one shape name (the dictionary is right) *)
